@@ -16,6 +16,16 @@ import Proofs.PrebuildCanon
 namespace PyxProps.C05
 open Pyx.Prebuild
 
+/-! Classification.  CONTENT-BEARING: `regen_parses_back` (structural induction over all supported bodies) and
+    `canon_idempotent`.  COROLLARIES: `regen_idempotent` (congruence of `canon_idempotent`), `regen_fixpoint`
+    (one line from the two).  PRINTER SHAPE: `order_preserved*` re-express the model printer's own recursion as
+    map / flatten / intercalate over the source lists; they follow the model, they say nothing about the mechanisms
+    that decide order in the code (R661 walk, `sorted(by_position)`, R816 chain) — those are C06
+    `chains_are_source_order` plus the direct predicate.
+    `supported` is a SYNTACTIC over-approximation (statement shapes, canonical operator / cardinality / boolean
+    spellings, resolution of invocations against ctx); it puts no condition on identifier / number / phrase
+    strings — those are `Lexical.lexical`, not needed at token level, evaluated by the driver on every case. -/
+
 /-- The regenerated text parses back to the (normal form of the) original tree — for every supported,
     name-resolved action body, whatever its length and nesting depth. -/
 theorem regen_parses_back (ctx : Ctx) (a : Block) (h : supported ctx (canon ctx a) = true) :
@@ -68,7 +78,7 @@ theorem order_preserved_params (ctx : Ctx) (ps : Params) :
     invocations of all four kinds with several parameters, written with upper-case keywords and un-resolved
     `NS::f()` forms, whose normal form is supported -/
 
-def demoCtx : Ctx := ⟨["LOG"], ["DOG"]⟩
+def demoCtx : Ctx := ⟨["LOG"], ["DOG"], [("DOG1", "'bark heard'"), ("DOG2", "'fed'"), ("DOG_A1", "'tick'")]⟩
 
 def demo : Block :=
   .cons (.selFrom "ANY" "d" "DOG")
